@@ -349,8 +349,8 @@ func main() {
 
 	// histories are independent (one Gate instance each): sequential ones are produced by a
 	// pool of workers, results are emitted in index order; each has its own forked generator
-	nSeq := f.Count(200)
-	nConc := f.Count(100)
+	nSeq := f.Count(180)
+	nConc := f.Count(80)
 	rngs := make([]*lib.Rng, nSeq+nConc)
 	for i := range rngs {
 		rngs[i] = rng.Fork()
